@@ -1873,7 +1873,10 @@ func (a *Agent) TaskPrepare(Command int, Info any, Message *map[string]string, C
 				/* generate some random socket id */
 				SocketId = int32(rand.Uint32())
 
+				/* one handler goroutine per client: the list is read under SocksSvrMtx (socks kill / clear) */
+				a.SocksSvrMtx.Lock()
 				s.Clients = append(s.Clients, SocketId)
+				a.SocksSvrMtx.Unlock()
 
 				a.SocksClientAdd(SocketId, conn, SocksHeader.ATYP, SocksHeader.IpDomain, SocksHeader.Port)
 
